@@ -39,9 +39,9 @@ UID = st.one_of(
     _HEX.map(lambda h: f"{h[:8]}-{h[8:12]}-{h[12:16]}-{h[16:20]}-{h[20:]}"),
     _HEX.map(lambda h: f"{h[:8]}-{h[8:12]}-{h[12:16]}-{h[16:20]}-{h[20:]}".upper()),
     _HEX,
-    st.sampled_from(["null", "NULL", "None", "none", "nil", "0", "false", "N", "NaN", "-", "_"]),
+    st.sampled_from(["null", "NULL", "None", "none", "nil", "0", "false", "N", "NaN", "-", "_", "NONE-2024-01", "NONESUCH_2", "NONE1", "xNONE", "NONENONE"]),
 )
-ENTITY_BITS = ["&#60;", "&#38;", "&#x3C;", "&#62;", "&amp;", "&lt;", "&#233;", "&#0;", "&nbsp;", "&", ";", "#"]
+ENTITY_BITS = ["?>", "<?", "\n", "\n\n\n", "\r\n", "&#60;", "&#38;", "&#x3C;", "&#62;", "&amp;", "&lt;", "&#233;", "&#0;", "&nbsp;", "&", ";", "#"]
 
 ALL_PAIRS = [(e, c) for e in ("USASCII", "UNICODE", "UTF-8") for c in ("ISO-8859-1", "1252", "NONE")]
 CP1252_CHARS = "".join(bytes([b]).decode("cp1252") for b in range(0x80, 0x100) if b not in (0x81, 0x8D, 0x8F, 0x90, 0x9D))
@@ -58,7 +58,7 @@ def body_st(charset, ascii_only=False):
     else:
         alpha = st.one_of(st.characters(min_codepoint=0x20, max_codepoint=0x2FFF, exclude_categories=("Cs", "Cn")), st.sampled_from("\r\n\t€漢💩"))
     inner = inner_small = st.one_of(
-        st.sampled_from(["OFX><A>x</A></OFX", "OFX>\r\n<A>1\r\n</OFX", "A", "a>b<c", "OFX><A>AT&#38;T &#60;b&#62;</A></OFX"]),
+        st.sampled_from(["OFX><A>x</A></OFX", "OFX>\r\n<A>1\r\n</OFX", "A", "a>b<c", "OFX><A>AT&#38;T &#60;b&#62;</A></OFX", "OFX>" + "\n<A>1".join(["", "", "", "", "", "", "", "", "", "", "", ""]) + "\n</OFX", "OFX><A>ready?>go</A></OFX"]),
         st.text(alpha, min_size=0, max_size=30),
         # entity and character-reference spellings are body text like any other: the header parser hands them over verbatim
         st.lists(st.one_of(st.sampled_from(ENTITY_BITS), st.text(alpha, min_size=0, max_size=4)), min_size=1, max_size=8).map("".join),
